@@ -294,6 +294,10 @@ def compare(case, obs, exp, hang=None):
             asis.append("error detail: impl %s spec %s" % (json.dumps(op), json.dumps(e2)))
     if "hdr" in exp:
         eh, oh = exp["hdr"], obs.get("hdr", {})
+        # C17's last sentence on whatever buffer is at hand: from 20 bytes on, the header decoder accepts exactly what the full
+        # parser does not call non-STUN
+        if len(case["bytes"]) >= 20 and "panic" not in oh and (bool(oh.get("ok")) == (op.get("err") == "NotStun")):
+            must.append((["C17"], "header decoder %s, full parser answers %s" % ("accepts" if oh.get("ok") else "refuses (" + json.dumps(oh) + ")", json.dumps(op)[:120])))
         if eh != oh:
             must.append((["C17"] if eh.get("ok") or eh.get("err") != "NotStun" or oh.get("ok") else ["C17", "C19"],
                          "header decoder: impl %s spec %s" % (json.dumps(oh), json.dumps(eh))))
@@ -493,7 +497,7 @@ def enum_cases(cfgs, wd):
 # --------------------------------------------------------------------------- case sources
 ALPHA_TYPES = [6, 32802, 32512, 65280, 8, 28, 32808, 36, 0]
 # wire type of each letter of MCStunMessage!Alphabet (only used to choose policing sets)
-LETTER_TYPES = [6, 6, 32802, 32802, 32512, 65280, 8, 8, 28, 28, 28, 32808, 32808, 32808, 32808, 36, 32802, 65280, 6, 0, 8, 28]
+LETTER_TYPES = [6, 6, 32802, 32802, 32512, 65280, 8, 8, 28, 28, 28, 32808, 32808, 32808, 32808, 36, 32802, 65280, 6, 0, 8, 28, 8, 8, 8]
 
 
 def gen_messages(n, seed, wd, maxattrs=5, tag="gen", nbig=0, nmany=None):
@@ -571,7 +575,7 @@ def distinct(cases):
 # --------------------------------------------------------------------------- C02 / C10 / C17 / C16
 def c02(rep, tier, seed, wd):
     rng = random.Random(seed)
-    cfgs = ["bodies2", "tails4", "tailsfp", "headers"] if tier == "quick" else ["bodies", "tails5", "tailsfp", "headers"]
+    cfgs = ["bodies2", "tails4", "tailsfp", "tailsodd", "headers"] if tier == "quick" else ["bodies", "tails5", "tailsfp", "tailsodd", "headers"]
     cases, st, tr = enum_cases(cfgs, wd)
     for c in cases:
         c["lookup"] = ALPHA_TYPES
@@ -621,7 +625,7 @@ def c02(rep, tier, seed, wd):
 
 
 def c10(rep, tier, seed, wd):
-    cfgs = ["tails4", "tailsfp", "bodies2"] if tier == "quick" else ["tails5", "tailsfp", "bodies"]
+    cfgs = ["tails4", "tailsfp", "tailsodd", "bodies2"] if tier == "quick" else ["tails5", "tailsfp", "tailsodd", "bodies"]
     cases, st, tr = enum_cases(cfgs, wd)
     for c in cases:
         c["lookup"] = ALPHA_TYPES
@@ -661,6 +665,13 @@ def c17(rep, tier, seed, wd):
         else:
             m["cuts"] = True
         allc.append(m)
+    # headers whose declared length is anything at all (not only what a builder writes: odd, not a multiple of 4, longer or
+    # shorter than what follows), alone and followed by that many / fewer / more bytes
+    for d in list(range(0, 30)) + [255, 256, 257, 0xfffc, 0xfffd, 0xffff]:
+        hdr = [0, 1, d >> 8, d & 255, 0x21, 0x12, 0xa4, 0x42] + tid
+        body = [0xc0, 0x01, 0, max(0, min(d, 600) - 4) & 255] + [7] * 600
+        for n in sorted({0, min(d, 600), max(0, min(d, 600) - 1), min(d, 600) + 1}):
+            allc.append({"bytes": hdr + body[:n], "src": "header declaring %d bytes followed by %d" % (d, n)})
     triples = run_pipeline(allc, wd, "c17", trace=False, chunk=1500)
     report_must(rep, "C17", triples, "case")
     ncuts = sum(len(e.get("cuts", [])) + len(e.get("cutlist", [])) for (_c, o, e, _h) in triples)
@@ -842,7 +853,11 @@ def c09(rep, tier, seed, wd):
     crowded = [g for g in gen_messages(400 if tier == "quick" else 4000, seed + 4, wd, maxattrs=3)
                if g["gen"]["seal"] & 4 and len(g["gen"]["attrs"]) > 16]
     crowded.sort(key=lambda g: len(g["bytes"]))
+    # (the smallest ones and - a walk that gives up after N attributes never reaches the FINGERPRINT - the one with the most)
+    most = max(crowded, key=lambda g: len(g["gen"]["attrs"])) if crowded else None
     crowded = crowded[:(2 if tier == "quick" else 10)]
+    if most is not None and most not in crowded:
+        crowded.append(most)
     gm += [g for g in crowded if g not in gm]
     gm += [g for g in allfp if g not in gm and len(g["bytes"]) <= 4000]
     base = [{"bytes": g["bytes"], "src": "fingerprinted message %d (%s, seal=%d)" % (g["id"], "external" if g["gen"]["by_ext"] else "builder", g["gen"]["seal"])} for g in gm]
@@ -865,12 +880,12 @@ def c09(rep, tier, seed, wd):
     for g in crowded:
         b = g["bytes"]
         na = len(g["gen"]["attrs"])
-        for _ in range(150 if tier == "quick" else 1500):
+        for _ in range((150 if tier == "quick" else 1500) if g is not most or tier != "quick" else 40):
             i = rng.randrange(len(b) * 8)
             m = list(b)
             m[i // 8] ^= 1 << (7 - i % 8)
             muts.append({"bytes": m, "mode": "verdict", "src": "message %d (%d attributes), bit %d flipped" % (g["id"], na, i)})
-        for m, what in bursts(b, rng, 3):
+        for m, what in bursts(b, rng, 3 if g is not most or tier != "quick" else 0):
             muts.append({"bytes": m, "mode": "verdict", "src": "message %d (%d attributes), %s" % (g["id"], na, what)})
         if crowded.index(g) == 0 or tier != "quick":
             muts += systematic_fp_mutants(g, rng)
@@ -1237,7 +1252,8 @@ def compare_attr(case, obs, exp):
             must.append((["C08"], "decoded a value the RFC encoding rules do not allow: %s" % json.dumps({k: d[k] for k in d if k in FIELD_KEYS})[:200]))
         return must, asis
     if not d.get("ok"):
-        must.append((["C08"], "refused a legal value: %s" % json.dumps(d)))
+        # (an XOR-MAPPED-ADDRESS that is refused does not return the address that was put in either)
+        must.append((["C13", "C08"] if ty == 32 else ["C08"], "refused a legal value: %s" % json.dumps(d)))
         return must, asis
     ef = exp["fields"]
     for k in FIELD_KEYS:
@@ -1335,6 +1351,26 @@ def c13(rep, tier, seed, wd):
         for ip in ([0] * 10 + [255, 255] + r4, [0] * 12 + r4, [0] * 15 + [1], r8 + [0x80, 0x28, 0, 4] + r4, r8 + [0, 8, 0, 20] + r4,
                    [0x20, 0x01, 0x0d, 0xb8] + [0] * 4 + [0x80, 0x28, 0, 4, 0, 0, 0, 1]):
             cases.append({"type": 32, "value": [0, 2, port >> 8, port & 255] + ip, "tid": tid, "src": "shaped v6 wire form"})
+    # addresses of special ranges (loopback, unspecified, broadcast, multicast, link-local, private, documentation, NAT64 ...),
+    # once as the WIRE form (what a check applied before the XOR is undone would look at) and once as the REAL address (the
+    # wire form is then the pattern XOR cookie||id: the judge is given wire bytes, so the mask is applied here - assembling,
+    # the expected address comes from the specification)
+    sp4 = [[127, 0, 0, 1], [127, 255, 255, 255], [0, 0, 0, 0], [255, 255, 255, 255], [224, 0, 0, 1], [239, 255, 255, 250], [169, 254, 1, 1],
+           [10, 0, 0, 1], [192, 168, 0, 1], [172, 16, 0, 1], [100, 64, 0, 1], [192, 0, 2, 1], [198, 18, 0, 1], [240, 0, 0, 1], [1, 0, 0, 0], [0, 0, 0, 1]]
+    sp6 = [[0] * 15 + [1], [0] * 16, [0xfe, 0x80] + [0] * 13 + [1], [0xff, 2] + [0] * 13 + [1], [0xfc] + [0] * 14 + [1], [0xfd] + [0] * 14 + [1],
+           [0x20, 1, 0x0d, 0xb8] + [0] * 11 + [1], [0, 0x64, 0xff, 0x9b] + [0] * 8 + [192, 0, 2, 1], [0x20, 2] + [0] * 13 + [1], [0xfe, 0xc0] + [0] * 13 + [1],
+           [0] * 10 + [255, 255, 127, 0, 0, 1], [0x20, 1, 0, 0] + [0] * 11 + [1]]
+    cookie = [0x21, 0x12, 0xa4, 0x42]
+    for tid in (TID0, [0] * 12, [255] * 12, [rng.randrange(256) for _ in range(12)]):
+        for port in (0, 0x2112, 3478, 65535):
+            wp = [port >> 8, port & 255]
+            rp = [(port >> 8) ^ 0x21, (port & 255) ^ 0x12]
+            for ip in sp4:
+                cases.append({"type": 32, "value": [0, 1] + wp + ip, "tid": tid, "src": "special-range v4 as wire form"})
+                cases.append({"type": 32, "value": [0, 1] + rp + [a ^ b for a, b in zip(ip, cookie)], "tid": tid, "src": "special-range v4 as real address"})
+            for ip in sp6:
+                cases.append({"type": 32, "value": [0, 2] + wp + ip, "tid": tid, "src": "special-range v6 as wire form"})
+                cases.append({"type": 32, "value": [0, 2] + rp + [a ^ b for a, b in zip(ip, cookie + tid)], "tid": tid, "src": "special-range v6 as real address"})
     # all ports once
     for port in range(0, 65536, 1 if tier != "quick" else 17):
         cases.append({"type": 32, "value": [0, 1, port >> 8, port & 255, 10, 0, 0, 1], "tid": TID0, "src": "port sweep"})
@@ -1720,7 +1756,7 @@ def boundary_cases(rng):
 
 def c01(rep, tier, seed, wd):
     rng = random.Random(seed)
-    cfgs = ["bodies2", "tails4", "tailsfp", "headers"] if tier == "quick" else ["bodies", "tails5", "tailsfp", "headers"]
+    cfgs = ["bodies2", "tails4", "tailsfp", "tailsodd", "headers"] if tier == "quick" else ["bodies", "tails5", "tailsfp", "tailsodd", "headers"]
     cases, st, tr = enum_cases(cfgs, wd)
     for c in cases:
         c["types"] = [LETTER_TYPES[x - 1] for x in c["as"]]
